@@ -35,16 +35,28 @@ def good_create(supi, notify=True):
     return b
 
 
-def usage(kind):
+def usage(kind, bulk="none"):
     if kind == "none":
         return None
     c = dict(quotaManagementIndicator="ONLINE_CHARGING", totalVolume=0, localSequenceNumber=1)
     e = dict(ratingGroup=1, usedUnitContainer=[c])
+    if bulk == "many":
+        e["usedUnitContainer"] = [c] + [dict(c, localSequenceNumber=2 + i) for i in range(1300)]
     if kind == "online_req":
         e["requestedUnit"] = dict(totalVolume=10)
     if kind == "offline":
         c["quotaManagementIndicator"] = "OFFLINE_CHARGING"
     return [e]
+
+
+def control(b, ctl):
+    """Control members of the probed request: retransmission indicator, invocation sequence number 0 / absent."""
+    if ctl.startswith("retx"):
+        b["retransmissionIndicator"] = True
+    if ctl.endswith("0"):
+        b["invocationSequenceNumber"] = 0
+    if ctl.endswith("abs"):
+        del b["invocationSequenceNumber"]
 
 
 TRIG = {"partial": [dict(triggerType="VOLUME_LIMIT", triggerCategory="IMMEDIATE_REPORT")],
@@ -80,17 +92,19 @@ def to_case(hist, bid):
             b["nfConsumerIdentification"]["nFPLMNID"] = PLMN[s["plmn"]]
         if s["pdu"] != "absent":
             b["pDUSessionChargingInformation"] = PDU[s["pdu"]]
-        u = usage(s["usage"])
+        u = usage(s["usage"], s.get("bulk", "none"))
         if u:
             b["multipleUnitUsage"] = u
+        control(b, s.get("ctl", "plain"))
         reqs.append(dict(role="probe", method="POST", path="/chargingdata", body=json.dumps(b)))
     elif ep in ("update", "release"):
         b = dict(subscriberIdentifier=supi, invocationSequenceNumber=5)
-        u = usage(s["usage"])
+        u = usage(s["usage"], s.get("bulk", "none"))
         if u:
             b["multipleUnitUsage"] = u
         if s["trig"] != "none":
             b["triggers"] = TRIG[s["trig"]]
+        control(b, s.get("ctl", "plain"))
         reqs.append(dict(role="probe", method="POST", path="/chargingdata/{REF}/" + ep, body=json.dumps(b)))
     else:
         rp = {"u_1": supi.replace("/", "%2F") + "_1", "u": supi.replace("/", "%2F"), "u_x": supi.replace("/", "%2F") + "_x",
@@ -112,6 +126,7 @@ def cfg(tier):
         Pdus=S("absent", "full", "no_info", "no_slice", "no_snssai"),
         Usages=S("none", "online_req", "online_noreq", "offline"), Trigs=S("none", "partial", "final"),
         Rparams=S("u_1", "u", "u_x", "_", "u_1_2"), Priors=S("fresh", "created", "debit", "nearfull", "evcreated"), Notifys=S("present", "absent"),
+        Ctls=S("plain", "retx", "retx0", "retxabs", "isn0", "isnabs"), Bulks=S("none", "many"),
         EmitOneIn=1)
     return c, 100000
 
